@@ -24,13 +24,15 @@ structure Ini where
   k : Nat
   ctx : Option Nat := none
   pw : Nat := 0
+  /-- the window instance whose salt / iteration count the PBKDFParamResponse carried -/
+  salt : Nat := 0
   pB : Option Nat := none
   /-- the exchange is still usable from the initiator's side -/
   live : Bool := true
 
 def Ini.conf (i : Ini) : Option Conf :=
   match i.ctx, i.pB with
-  | some c, some b => some { pw := i.pw, ctx := c, pA := i.k, pB := b }
+  | some c, some b => some { pw := i.pw * 1000 + i.salt, ctx := c, pA := i.k, pB := b }
   | _, _ => none
 
 /-- the specification's own book-keeping (written from the property text, independent of `step`) -/
@@ -44,6 +46,9 @@ structure Spec where
 structure St where
   m : Pase.St := {}
   devPw : Nat := 0
+  /-- number of windows opened so far: every window draws a fresh salt, so its verifier (the
+  model's passcode class) is (passcode, window instance) -/
+  opens : Nat := 0
   t0 : Option Nat := none
   inis : List Ini := []
   /-- time (ms, case-relative) at which the responder task of exchange `x` last heard from its peer -/
@@ -125,7 +130,7 @@ def step (st : St) (line : String) : St × String :=
     -- the model operation(s)
     let (mop, st) : Option Op × St :=
       match head with
-      | "open" => (some (.openWin st.devPw (m.num "t")), st)
+      | "open" => (some (.openWin (st.devPw * 1000 + st.opens + 1) (m.num "t")), st)
       | "revoke" => (some .revoke, st)
       | "tick" => (some (.tick (m.num "ms")), st)
       | "poll" => (some .poll, st)
@@ -171,7 +176,8 @@ def step (st : St) (line : String) : St × String :=
       | some m' =>
       -- what the initiator learns from the answer
       let st := match o with
-        | .pbkdfResp ctx => setIni st { (st.inis.find? (·.k = k)).getD { k := k } with ctx := some ctx }
+        | .pbkdfResp ctx => setIni st { (st.inis.find? (·.k = k)).getD { k := k } with ctx := some ctx, salt := st.opens }
+        | .ok => if head = "open" then { st with opens := st.opens + 1 } else st
         | .pake2 pB => setIni st { (st.inis.find? (·.k = k)).getD { k := k } with pB := some pB }
         | _ => st
       let st := if head = "pbkdf" || head = "pake1" || head = "pake3" || head = "abort" then touch st k now else st
